@@ -133,3 +133,98 @@ pub(super) fn sweep_roundtrip(mi: u8, bd: u8, full: bool, plane: u8, a: u16, b: 
     }
 }
 // driver-generated harnesses (selected by VERIF_SEED) are appended below this line
+
+// ---------------------------------------------------------------- C06: primaries conversion vs the CIE derivation
+// Input-free: the REAL transform_primaries is applied to the basis vectors and to white; the reference
+// M_out^-1 * Bradford(white_in -> white_out) * M_in is computed here in f64 from the H.273 chromaticities.
+type M64 = [[f64; 3]; 3];
+fn h273_xy(p: CP) -> ([[f64; 2]; 3], [f64; 2]) {
+    let d65 = [0.3127, 0.3290]; let c = [0.310, 0.316];
+    match p {
+        CP::BT709 => ([[0.640, 0.330], [0.300, 0.600], [0.150, 0.060]], d65),
+        CP::BT470M => ([[0.67, 0.33], [0.21, 0.71], [0.14, 0.08]], c),
+        CP::BT470BG => ([[0.64, 0.33], [0.29, 0.60], [0.15, 0.06]], d65),
+        CP::ST170M | CP::ST240M => ([[0.630, 0.340], [0.310, 0.595], [0.155, 0.070]], d65),
+        CP::Film => ([[0.681, 0.319], [0.243, 0.692], [0.145, 0.049]], c),
+        CP::BT2020 => ([[0.708, 0.292], [0.170, 0.797], [0.131, 0.046]], d65),
+        CP::P3DCI => ([[0.680, 0.320], [0.265, 0.690], [0.150, 0.060]], [0.314, 0.351]),
+        CP::P3Display => ([[0.680, 0.320], [0.265, 0.690], [0.150, 0.060]], d65),
+        CP::Tech3213 => ([[0.630, 0.340], [0.295, 0.605], [0.155, 0.077]], d65),
+        _ => unreachable!(),
+    }
+}
+fn mul64(a: M64, b: M64) -> M64 {
+    let mut r = [[0.0; 3]; 3];
+    let mut i = 0; while i < 3 { let mut j = 0; while j < 3 { r[i][j] = a[i][0] * b[0][j] + a[i][1] * b[1][j] + a[i][2] * b[2][j]; j += 1; } i += 1; }
+    r
+}
+fn mulv64(a: M64, v: [f64; 3]) -> [f64; 3] {
+    [a[0][0] * v[0] + a[0][1] * v[1] + a[0][2] * v[2], a[1][0] * v[0] + a[1][1] * v[1] + a[1][2] * v[2], a[2][0] * v[0] + a[2][1] * v[1] + a[2][2] * v[2]]
+}
+fn inv64(m: M64) -> M64 {
+    let c = |r0: usize, c0: usize, r1: usize, c1: usize| m[r0][c0] * m[r1][c1] - m[r0][c1] * m[r1][c0];
+    let det = m[0][0] * c(1, 1, 2, 2) - m[0][1] * c(1, 0, 2, 2) + m[0][2] * c(1, 0, 2, 1);
+    [[c(1, 1, 2, 2) / det, -c(0, 1, 2, 2) / det, c(0, 1, 1, 2) / det],
+     [-c(1, 0, 2, 2) / det, c(0, 0, 2, 2) / det, -c(0, 0, 1, 2) / det],
+     [c(1, 0, 2, 1) / det, -c(0, 0, 2, 1) / det, c(0, 0, 1, 1) / det]]
+}
+fn white_xyz(w: [f64; 2]) -> [f64; 3] { [w[0] / w[1], 1.0, (1.0 - w[0] - w[1]) / w[1]] }
+// RGB -> XYZ matrix of a primaries set (CIE derivation): columns = primaries' XYZ scaled so that (1,1,1) -> white
+fn rgb_to_xyz_ref(p: CP) -> (M64, [f64; 3]) {
+    if p == CP::ST428 { return ([[1.0, 0.0, 0.0], [0.0, 1.0, 0.0], [0.0, 0.0, 1.0]], white_xyz([1.0 / 3.0, 1.0 / 3.0])); }
+    let (xy, w) = h273_xy(p);
+    let col = |k: usize| [xy[k][0] / xy[k][1], 1.0, (1.0 - xy[k][0] - xy[k][1]) / xy[k][1]];
+    let (r, g, b) = (col(0), col(1), col(2));
+    let m = [[r[0], g[0], b[0]], [r[1], g[1], b[1]], [r[2], g[2], b[2]]];
+    let wx = white_xyz(w);
+    let s = mulv64(inv64(m), wx);
+    ([[m[0][0] * s[0], m[0][1] * s[1], m[0][2] * s[2]], [m[1][0] * s[0], m[1][1] * s[1], m[1][2] * s[2]], [m[2][0] * s[0], m[2][1] * s[1], m[2][2] * s[2]]], wx)
+}
+fn primaries_ref(i: CP, o: CP) -> M64 {
+    let brad: M64 = [[0.8951, 0.2664, -0.1614], [-0.7502, 1.7135, 0.0367], [0.0389, -0.0685, 1.0296]];
+    let (mi, wi) = rgb_to_xyz_ref(i); let (mo, wo) = rgb_to_xyz_ref(o);
+    let (ci, co) = (mulv64(brad, wi), mulv64(brad, wo));
+    let d: M64 = [[co[0] / ci[0], 0.0, 0.0], [0.0, co[1] / ci[1], 0.0], [0.0, 0.0, co[2] / ci[2]]];
+    let adapt = if wi[0] == wo[0] && wi[2] == wo[2] { [[1.0, 0.0, 0.0], [0.0, 1.0, 0.0], [0.0, 0.0, 1.0]] } else { mul64(mul64(inv64(brad), d), brad) };
+    mul64(mul64(inv64(mo), adapt), mi)
+}
+fn primaries_check(i: CP, o: CP) {
+    let t = primaries_ref(i, o);
+    let img = transform_primaries(vec![[1.0, 0.0, 0.0], [0.0, 1.0, 0.0], [0.0, 0.0, 1.0], [1.0, 1.0, 1.0]], i, o).unwrap();
+    let mut k = 0;
+    while k < 3 {
+        let mut c = 0;
+        // image of basis vector e_k is column k of the reference matrix (all pixels follow by linearity of mul_arr)
+        while c < 3 { assert!((img[k][c] as f64 - t[c][k]).abs() <= 1e-5); c += 1; }
+        k += 1;
+    }
+    // equal-energy white stays white
+    let mut c = 0;
+    while c < 3 { assert!((img[3][c] - 1.0).abs() <= 1e-5); c += 1; }
+    // there and back returns the basis
+    let back = transform_primaries(img, o, i).unwrap();
+    let mut k = 0;
+    while k < 3 {
+        let mut c = 0;
+        while c < 3 { assert!((back[k][c] - if k == c { 1.0 } else { 0.0 }).abs() <= 1e-5); c += 1; }
+        k += 1;
+    }
+}
+macro_rules! per_primaries {
+    ($( $to:ident, $from:ident = $p:expr ),* $(,)?) => { $(
+        #[kani::proof] #[kani::unwind(6)] fn $to() { primaries_check($p, CP::BT709); }
+        #[kani::proof] #[kani::unwind(6)] fn $from() { primaries_check(CP::BT709, $p); }
+    )* };
+}
+per_primaries!(prim_bt470m_to709, prim_709_to_bt470m = CP::BT470M, prim_bt470bg_to709, prim_709_to_bt470bg = CP::BT470BG,
+    prim_st170m_to709, prim_709_to_st170m = CP::ST170M, prim_st240m_to709, prim_709_to_st240m = CP::ST240M,
+    prim_film_to709, prim_709_to_film = CP::Film, prim_bt2020_to709, prim_709_to_bt2020 = CP::BT2020,
+    prim_st428_to709, prim_709_to_st428 = CP::ST428, prim_p3dci_to709, prim_709_to_p3dci = CP::P3DCI,
+    prim_p3display_to709, prim_709_to_p3display = CP::P3Display, prim_tech3213_to709, prim_709_to_tech3213 = CP::Tech3213);
+// identical primaries: the data comes back bit-exactly (symbolic pixel)
+#[kani::proof] #[kani::unwind(3)]
+fn prim_same_is_identity() {
+    let p: [f32; 3] = [kani::any(), kani::any(), kani::any()];
+    let out = transform_primaries(vec![p], CP::BT2020, CP::BT2020).unwrap();
+    assert!(out[0][0].to_bits() == p[0].to_bits() && out[0][1].to_bits() == p[1].to_bits() && out[0][2].to_bits() == p[2].to_bits());
+}
